@@ -115,7 +115,7 @@ impl VehicleTypes {
 }
 
 // ================================================================ Network::new : overflow depot
-//@skeleton model/src/network.rs Network::new : recv sum 0; let max_formation_count; let overflow_capacity; let overflow_depot = b77ef2d76c1443b1
+//@skeleton model/src/network.rs Network::new : recv sum 0; let max_formation_count; let overflow_capacity; let overflow_depot = 102b23a1618499a4
 
 //@frag model/src/network.rs Network::new : recv sum 0 as frag_service_trip_counts
 //@params service_trips: &StdMap<VehicleTypeIdx, Vec<ServiceTrip>>
@@ -311,14 +311,14 @@ pub proof fn lemma_no_type_limit_means_total(d: Depot, vt: VehicleTypeIdx)
 }
 
 // ================================================================ create_network / create_depots : default depots
-//@skeleton model/src/json_serialisation/mod.rs fn create_network : let number_of_service_trips = c9ba0a631daa82b0
+//@skeleton model/src/json_serialisation/mod.rs fn create_network : let number_of_service_trips = d9445dd15e65f180
 
 //@frag model/src/json_serialisation/mod.rs fn create_network : let number_of_service_trips as frag_number_of_service_trips
 //@params service_trips: &StdMap<VehicleTypeIdx, Vec<ModelServiceTrip>>
 //@ret (r: VehicleCount)
-//@closure-params map#0
+//@closure-params? map#0
     &Vec<ModelServiceTrip>
-//@closure map#0
+//@closure? map#0
     -> (c: VehicleCount) ensures c == trips@.len() as u32
 //@sig
     requires
@@ -330,7 +330,7 @@ pub proof fn lemma_no_type_limit_means_total(d: Depot, vt: VehicleTypeIdx)
         broadcast use {lemma_sum_enum, lemma_enum_len_le_total};
 //@end
 
-//@skeleton model/src/json_serialisation/mod.rs fn create_depots : let allowed_vehicle_types; closure map#1; closure map#2 = 91a3f3272c8a8fee
+//@skeleton model/src/json_serialisation/mod.rs fn create_depots : let allowed_vehicle_types; closure map#1; closure map#2 = fcc39b2e64e99b30
 
 //@frag model/src/json_serialisation/mod.rs fn create_depots : let allowed_vehicle_types as frag_allowed_vehicle_types
 //@params vehicle_type_lookup: &StdMap<IdType, VehicleTypeIdx>
@@ -409,7 +409,7 @@ pub type DateTimeString = String;
     ensures r.id == id, r.location == location, r.start == start, r.end == end, r.track_count == track_count,
 //@end
 
-//@skeleton model/src/json_serialisation/mod.rs fn create_service_trips : let arrival_time; let distance; let seated; stmt "if passengers == 0"; let maximal_formation_count; let service_trip = e76b358ed9271911
+//@skeleton model/src/json_serialisation/mod.rs fn create_service_trips : let arrival_time; let distance; let seated; stmt "if passengers == 0"; let maximal_formation_count; let service_trip = da413f9d32843c1a
 
 //@frag model/src/json_serialisation/mod.rs fn create_service_trips : let arrival_time as frag_arrival_time
 //@params departure_time: DateTime, route_segment: &&RouteSegment
